@@ -278,4 +278,21 @@ PROPS = {
              level_note="partial: context propagation and cancellation are checked on generated cases, not proved (runtime behaviour of "
                         "context.Context). Trusted: Lean kernel; harness.",
              technique="Lean 4 proof (induction on the middleware chain) + differential correspondence with context-inspecting oracle"),
+    "C15": P("Pw.Props.C15",
+             ["Pw.Props.C15.loop_eq_iterate", "Pw.Props.C15.C15_noninterference", "Pw.Props.C15.C15_solo_equivalence"],
+             [("multi", 600, 30000)], ["Shared", "Startup"], race=True,
+             design_ref="§7 C15",
+             level_text="Lean theorem (noninterference): the connection model takes configuration and handlers as values and owns "
+                        "everything it mutates, so a server with N connections is a product of N machines; for ANY N and ANY "
+                        "interleaving of their steps, connection i's state (transcript, callback trace, name maps, fate) equals what i "
+                        "reaches served alone (C15_noninterference, induction on the schedule; C15_solo_equivalence links it to the "
+                        "command loop). That the Go code has this shape - no unsynchronised shared write - is tied by pinned facts "
+                        "(no Server-field writes outside construction, per-connection pgtype.NewMap in serve(), maps.Clone in "
+                        "writeParameters, caches created per connection) and by the campaign: 2-4 concurrent sessions (overlapping "
+                        "statement/portal names, different users and row values, phased and freely concurrent with random pacing) on a "
+                        "harness BUILT WITH -race; every connection's real transcript and trace must equal the solo model run, and any "
+                        "race report (halt_on_error) is a violation with the session set as replay.",
+             level_note="partial: the Go memory model is not formalised; freedom from data races in the real code (incl. pgx) is observed "
+                        "by the race detector on generated schedules, not proved. Trusted: Lean kernel; harness.",
+             technique="Lean 4 proof (noninterference of a product system, induction on schedules) + differential correspondence under the race detector"),
 }
